@@ -24,7 +24,8 @@ MODELLED = ["SimulationFixedTimes / SimulationWithJumpTimes / SimulationMaximumS
             "sources of randomness are scripted: nb_jump_dt, jump_times_from_nb_of_jumps, model.jump_increment / the chain's "
             "state sampler, np.random.normal, CouplingSimulation.coupling_state (C03 is about its law)",
             "MarkovChainLevyCopula (2-d) is driven through simulate_one_path and compared component by component with the 1-d chain model; "
-            "the coupled copula simulators (CouplingProcessLevyCopula) are covered only through build_finer_grid on d x n arrays"]
+            "CouplingProcessLevyCopula (2-d, level 1) likewise, fine and coarse component by component against the 1-d coupled model "
+            "(its private __coupling_state is scripted)"]
 ASSUMPTIONS = ["floats are modelled by exact rationals: times and jump paths compared exactly (dyadic scripts); the diffusion path "
                "exactly when every sqrt(dt) is an exact double, with absolute tolerance 1e-12 otherwise",
                "C15_jump_times assumes consecutive product intervals and offsets strictly increasing inside (0, dt) "
@@ -682,6 +683,108 @@ def copula_cases(res, rng, tier):
     return fixed_cases, jump_cases
 
 
+def coupled_copula_cases(res, rng, tier):
+    """CouplingProcessLevyCopula (2-d, level 1) through simulate_one_path_with_coupling: fixed dates, jump times and jump times with
+    max_step_epsilon, 1-3 product dates, ragged jump counts; scripted: jump counts, offsets, the fine chain's state increments, the
+    coupling states (private __coupling_state), normals.  Every component of the fine and of the coarse path is compared with the
+    1-d coupled model (cfixed_check / cjump_check) and with the running-sum / cap oracle."""
+    import numpy as np
+    from stepmeasure import make_grid, step_spec, build_copula_model
+    from rpylib.process.coupling.couplinglevycopula import CouplingProcessLevyCopula
+    from rpylib.distribution.sampling import SamplingMethod
+    cfixed, cjump = [], []
+    d = 2
+    for it in range(45 if tier == "quick" else 300):
+        mode = ["fixed", "jump", "cap"][it % 3]
+        n_int = rng.choice([1, 3, 2, 3])
+        dt = rng.choice([0.25, 1.0, 4.0]) if mode == "fixed" else rng.choice([0.5, 1.0, 2.0])
+        T = dt * n_int
+        eps = rng.choice([T / 8, dt / 4, 3 * dt / 16, T, dt / 2, dt]) if mode == "cap" else None
+        counts, offsets = gen_script(rng, n_int, dt)
+        ctx = {"kind": "coupled-copula", "mode": mode, "intervals": n_int, "dt": dt, "T": T, "eps": eps, "counts": counts, "offsets": offsets}
+        try:
+            spec = step_spec(the_measure(), a=0.25, sigma=0.5)
+            cp = CouplingProcessLevyCopula(build_copula_model([spec, spec], "independent"), make_grid(AXIS, 6, Fraction(1, 4), dimension=d),
+                                           SamplingMethod.BINARYSEARCHTREEADAPTED)
+            prod = make_product(n_int + 1, T, stochastic=(mode != "fixed"))
+            with Patch(tags(rng, 400)):
+                np.random.seed(rng.randrange(2 ** 31))
+                cp.initialisation(prod, max_step_epsilon=eps)
+                cp.next_level(mc_paths=1, path_managers=None, product=prod, max_step_epsilon=eps)
+            axis = [float(v) for v in cp.grid.axes[0]]
+            org = cp.grid.origin_coordinate.value[0]
+            raw = [[tuple(rng.choice([k for k in range(-4, 5) if 0 <= org + k < len(axis)]) for _ in range(d)) for _ in range(n)] for n in counts]
+            craw = [[tuple(rng.choice([-2, -1, 0, 1, 2]) / 4 for _ in range(d)) for _ in r] for r in raw]      # scripted coupling states
+            fsizes = [[[axis[org + inc[k]] for inc in r] for r in raw] for k in range(d)]
+            csizes = [[[c[k] for c in r] for r in craw] for k in range(d)]
+            ctx.update(fine_state_increments=raw, coarse_values=craw)
+            rq, cq = deque(raw), deque(np.array(c, dtype=float) for r in craw for c in r)
+            cp.fine_process.sampling.sample = lambda size, rq=rq: [np.array(x) for x in rq.popleft()]
+            setattr(cp._path_coupling_simulation, "_CouplingLevyCopulaSimulation__coupling_state", lambda inc, axis_coordinates=None, cq=cq: cq.popleft())
+            script_process(cp.fine_process, counts, offsets)
+            with Patch(tags(rng, 600)) as pt:
+                cp.pre_computation(1, prod)
+                sp = cp.simulate_one_path_with_coupling()
+                used = list(pt.used_normals)
+        except Exception as e:  # noqa
+            report(res, f"CouplingProcessLevyCopula.simulate_one_path_with_coupling raises {type(e).__name__} ({mode}, {n_int} interval(s))",
+                   dict(ctx, error=f"{type(e).__name__}: {e}"))
+            continue
+        times = [float(t) for t in sp.jump_times[:]]
+        dif, jmp = np.asarray(sp.diffusion_path, dtype=float), np.asarray(sp.jump_path, dtype=float)
+        if dif.shape != (2, d, len(times)) or jmp.shape != (2, d, len(times)):
+            report(res, "coupled copula path: fine / coarse components are not aligned on the returned times",
+                   dict(ctx, times=times, shapes=[list(dif.shape), list(jmp.shape)]))
+            continue
+        sq = [float(v) for v in np.sqrt(np.diff(times))]
+        n = len(sq)
+        dm_f, dm_c = np.asarray(cp._diffusion_matrix_h, dtype=float), np.asarray(cp._diffusion_matrix_2h, dtype=float)
+        exact_sq = all(F(s_) ** 2 == F(b) - F(a) for s_, a, b in zip(sq, times, times[1:]))
+        tol = Fraction(0) if exact_sq else TOL
+        res.count(("coupled-copula", mode, n_int, dt, eps, repr(counts), repr(offsets), repr(raw), repr(craw)), nontrivial=sum(counts) >= 1,
+                  kind=f"coupled copula {mode}")
+        res.bump("coupled_copula_intervals", n_int)
+        ql = lambda xs: lst([qlit(v) for v in xs])    # noqa
+        qll = lambda xss: lst([ql(xs) for xs in xss])  # noqa
+        tms = [kk * dt for kk in range(n_int)]
+        jt = [kk * dt + o for kk, offs in enumerate(offsets) for o in offs]
+        for k in range(d):
+            if abs(dm_f[k, 1 - k]) > 0 or abs(dm_c[k, 1 - k]) > 0:
+                continue
+            ws_k = used[k * n:(k + 1) * n]
+            comp = {}
+            for name, idx, sizes, sig in (("fine", 0, fsizes[k], float(dm_f[k, k])), ("coarse", 1, csizes[k], float(dm_c[k, k]))):
+                d_, j_ = [float(v) for v in dif[idx, k]], [float(v) for v in jmp[idx, k]]
+                comp[name] = (d_, j_, sig)
+                ssw = [F(s_) * F(sig) * F(w) for s_, w in zip(sq, ws_k)]
+                flat = [F(v) for r in sizes for v in r]
+                c2 = dict(ctx, component=f"{name}[{k}]")
+                if mode == "fixed":
+                    run, acc = [Fraction(0)], Fraction(0)
+                    for r in sizes:
+                        acc += sum((F(v) for v in r), Fraction(0))
+                        run.append(acc)
+                    c2["finding_hint"] = "fixed"
+                    check_path(res, f"CouplingProcessLevyCopula {name} (fixed dates)", times, d_, j_, T, None, run, ssw, None, c2)
+                else:
+                    cum, acc = [], Fraction(0)
+                    for v in flat:
+                        acc += v
+                        cum.append(acc)
+                    run = [Fraction(0)] + refined_expectation(jt, cum, times[1:-1]) + [cum[-1] if cum else Fraction(0)]
+                    check_path(res, f"CouplingProcessLevyCopula {name} ({'jump times' if eps is None else 'jump times, max step'})",
+                               times, d_, j_, T, jt, run, ssw, eps, c2)
+            (fd_, fj_, sf), (cd_, cj_, sc) = comp["fine"], comp["coarse"]
+            if mode == "fixed":
+                cfixed.append(f"({ql(sq)}, {qlit(sf)}, {qlit(sc)}, {ql(ws_k)}, {qll(fsizes[k])}, {qll(csizes[k])}, {qlit(tol)}, "
+                              f"{ql(fd_)}, {ql(fj_)}, {ql(cd_)}, {ql(cj_)})")
+            else:
+                cap = "None" if eps is None else f"(Some {qlit(eps)})"
+                cjump.append(f"({cap}, {qlit(T)}, {ql(tms)}, {qll(offsets)}, {qll(fsizes[k])}, {qll(csizes[k])}, "
+                             f"{ql(sq)}, {qlit(sf)}, {qlit(sc)}, {ql(ws_k)}, {qlit(tol)}, {ql(times)}, {ql(fd_)}, {ql(fj_)}, {ql(cd_)}, {ql(cj_)})")
+    return cfixed, cjump
+
+
 def copula_fixed_dates_replay(res):
     """MCLevyCopulaSimulationFixedTimes.project with several product dates (the former F-C15-2): one column per date, running totals"""
     import numpy as np
@@ -742,6 +845,8 @@ def correspond(res):
     cfixed, cjump = coupled_cases(res, rng, tier)
     kfixed, kjump = copula_cases(res, rng, tier)
     fixed, jump = fixed + kfixed, jump + kjump
+    ccf, ccj = coupled_copula_cases(res, rng, tier)
+    cfixed, cjump = cfixed + ccf, cjump + ccj
     copula_fixed_dates_replay(res)
     groups = [
         ("finer1", "Q * Q * list Q * list Q * list Q * list Q", "finer1_check", f1),
